@@ -14,9 +14,9 @@ B=true; cargo build --offline -q 2>/dev/null || B=false; cargo build --offline -
 if [ $B = false ]; then res true false false false false "" "build failed"; cleanup; exit 0; fi
 S=true; cargo test --workspace --no-fail-fast --offline >$WT/suite.log 2>&1 || S=false
 # demo: default = integration test file; MIRI=1 env to run under miri; RELEASE=1 for --release
-DEMO=demo_$M; cp $SRC/demo.rs tests/$DEMO.rs
+DEMO=demo_$M; cp $SRC/${DEMO_FILE:-demo.rs} tests/$DEMO.rs
 MODE=""; [ -n "$RELEASE" ] && MODE="--release"
-if [ -n "$USE_MIRI" ]; then CMD="cargo +nightly miri test --offline --test $DEMO"; export MIRIFLAGS="-Zmiri-disable-isolation -Zmiri-ignore-leaks"; else CMD="cargo test --offline $MODE --test $DEMO"; fi
+if [ -n "$USE_MIRI" ]; then CMD="cargo +nightly miri test --offline --test $DEMO"; export MIRIFLAGS="-Zmiri-disable-isolation -Zmiri-ignore-leaks"; else CMD="cargo test --offline $MODE $CARGO_EXTRA --test $DEMO"; fi
 F=false; timeout 900 $CMD >$WT/demo_mut.log 2>&1 || F=true
 git apply -R $SRC/patch.diff
 O=true; timeout 900 $CMD >$WT/demo_orig.log 2>&1 || O=false
